@@ -184,11 +184,22 @@ def gen(rng, tier):
     for _ in fr:
         tags.append(t); t += 1 if rng.random() < 0.7 else rng.randint(2, 3)
     return dict(frames=fr, sr=sr, memory=mem, max_size=linkgen.LIMIT, strategy=rng.choice(['recursive', 'nonrecursive', 'numba']),
-                ndim=ndim, v=v, tags=tags, int_frames=intf)
+                ndim=ndim, v=v, tags=tags, int_frames=intf, tag_type=rng.choice(['int', 'int', 'float', 'int32', 'float']))
 
 
 def drifted(c):
     return [f + np.array(c['v'], dtype=float) * t if len(f) else f for f, t in zip(c['frames'], c['tags'])]
+
+
+def typed_tags(c):
+    """the frame numbers as the caller's iterator delivers them: Python ints, or whole numbers stored as floats (a frame column
+    upcast by pandas), or numpy integers - the same numbers"""
+    k = c.get('tag_type', 'int')
+    if k == 'float':
+        return [np.float64(t) for t in c['tags']]
+    if k == 'int32':
+        return [np.int32(t) for t in c['tags']]
+    return list(c['tags'])
 
 
 def typed(c, frames):
@@ -207,7 +218,7 @@ def partition(labs_per_frame):
 
 def jsonable(c, out=None):
     d = c02.jsonable(c, out)
-    d['v'] = c['v']; d['tags'] = c['tags']; d['int_frames'] = list(c.get('int_frames') or [])
+    d['v'] = c['v']; d['tags'] = c['tags']; d['int_frames'] = list(c.get('int_frames') or []); d['tag_type'] = c.get('tag_type', 'int')
     return d
 
 
@@ -277,10 +288,11 @@ def _run(chk):
         def P(t1, particle, v=v):
             return particle.pos + v * (t1 - particle.t)
         dfr = drifted(c)
-        out_d = linkgen.run_link_iter(typed(c, dfr), c['sr'], memory=c['memory'], link_strategy=c['strategy'], predictor=P, enumerate_t=c['tags'])
-        out_p = linkgen.run_link_iter(typed(c, c['frames']), c['sr'], memory=c['memory'], link_strategy=c['strategy'], enumerate_t=c['tags'])
+        out_d = linkgen.run_link_iter(typed(c, dfr), c['sr'], memory=c['memory'], link_strategy=c['strategy'], predictor=P, enumerate_t=typed_tags(c))
+        out_p = linkgen.run_link_iter(typed(c, c['frames']), c['sr'], memory=c['memory'], link_strategy=c['strategy'], enumerate_t=typed_tags(c))
         if c.get('int_frames'):
             chk.tally('movie with integer-typed frames between float frames')
+        chk.tally('frame numbers delivered as ' + c.get('tag_type', 'int'))
         if any(o is None for o in out_d + out_p):
             chk.tally('oversize (skipped)'); continue
         w, R2 = linkgen.metric_of(c['sr'], c['ndim'], 4)
@@ -314,7 +326,7 @@ def _run(chk):
             @predictor
             def Pj(t1, particle, jit=np.array(jit, dtype=float)):
                 return particle.pos + jit * ((particle.t + t1) % 3 - 1)
-            out_j = linkgen.run_link_iter(c['frames'], c['sr'], memory=c['memory'], link_strategy=c['strategy'], predictor=Pj, enumerate_t=c['tags'])
+            out_j = linkgen.run_link_iter(c['frames'], c['sr'], memory=c['memory'], link_strategy=c['strategy'], predictor=Pj, enumerate_t=typed_tags(c))
             for t, labs in enumerate(out_j):
                 if labs is not None and (len(set(labs)) != len(labs) or len(labs) != len(c['frames'][t]) or any(l < 0 for l in labs)):
                     chk.violation('arbitrary predictor: invalid labels', 'labels not unique / complete in frame %d with a jitter predictor' % t,
@@ -401,10 +413,10 @@ def _replay(chk, path):
     ndim = len(cj['v'])
     frames = [f.reshape(len(f), ndim) for f in frames]
     c = dict(frames=frames, sr=(tuple(Fraction(x) for x in cj['search_range']) if isinstance(cj['search_range'], list) else Fraction(cj['search_range'])), memory=cj['memory'], max_size=cj['max_size'], strategy=cj['link_strategy'],
-             ndim=ndim, v=cj['v'], tags=cj['tags'], int_frames=cj.get('int_frames') or [])
+             ndim=ndim, v=cj['v'], tags=cj['tags'], int_frames=cj.get('int_frames') or [], tag_type=cj.get('tag_type', 'int'))
     v = np.array(c['v'], dtype=float)
     if r.get('kind') == 'plain-side':
-        out_p = linkgen.run_link_iter(typed(c, c['frames']), c['sr'], memory=c['memory'], link_strategy=c['strategy'], enumerate_t=c['tags'])
+        out_p = linkgen.run_link_iter(typed(c, c['frames']), c['sr'], memory=c['memory'], link_strategy=c['strategy'], enumerate_t=typed_tags(c))
         w, R2 = linkgen.metric_of(c['sr'], ndim, 4)
         head = "%s, %s, %s" % (linkgen.cmetric(w, R2), cnat(c['memory']), cnat(c['max_size']))
         b = common.coq_eval_lists(chk.work, IMPORTS, FUNC_PLAIN, ["(%s, %s, %s)" % (head, linkgen.cframes(c['frames'], 4), linkgen.cobs(out_p))])[0]
@@ -418,7 +430,7 @@ def _replay(chk, path):
     def P(t1, particle):
         return particle.pos + v * (t1 - particle.t)
     dfr = typed(c, drifted(c))
-    out_d = linkgen.run_link_iter(dfr, c['sr'], memory=c['memory'], link_strategy=c['strategy'], predictor=P, enumerate_t=c['tags'])
+    out_d = linkgen.run_link_iter(dfr, c['sr'], memory=c['memory'], link_strategy=c['strategy'], predictor=P, enumerate_t=typed_tags(c))
     w, R2 = linkgen.metric_of(c['sr'], ndim, 4)
     head = "%s, %s, %s" % (linkgen.cmetric(w, R2), cnat(c['memory']), cnat(c['max_size']))
     b = common.coq_eval_lists(chk.work, IMPORTS, FUNC_PLAIN, ["(%s, %s, %s)" % (head, linkgen.cframes(c['frames'], 4), linkgen.cobs(out_d))])[0]
